@@ -56,6 +56,8 @@ func cmdGen(args []string) {
 			b = g.behC10()
 		case "C20":
 			b = g.behC20()
+		case "C14":
+			b = g.scnC14()
 		default:
 			if fn, ok := genFns[*prop]; ok {
 				b = fn(g)
@@ -833,4 +835,89 @@ func (g *gen) behC20() M {
 	cfg := baseCfg()
 	cfg["limit"] = 1 << 20
 	return M{"cfg": cfg, "steps": steps}
+}
+
+// scnC14: random binary COPY scenarios: 0..4 columns, up to 6 rows, random
+// NULL placement, header/trailer, random byte-level cuts (up to one per byte),
+// corrupted field counts, truncation at any byte.
+func (g *gen) scnC14() M {
+	ncols := 1 + g.rng.Intn(4)
+	nrows := g.rng.Intn(7)
+	table := []any{}
+	cells := 0
+	hdr := g.chance(0.8)
+	if hdr {
+		cells += 4
+	}
+	for r := 0; r < nrows; r++ {
+		row := []any{}
+		cells += 2
+		for j := 0; j < ncols; j++ {
+			switch g.rng.Intn(6) {
+			case 0:
+				row = append(row, M{"c": "null"})
+				cells += 2
+			case 1:
+				row = append(row, M{"c": "e"})
+				cells += 2
+			case 2:
+				row = append(row, M{"c": "v", "n": 2})
+				cells += 4
+			default:
+				row = append(row, M{"c": "v", "n": 1})
+				cells += 3
+			}
+		}
+		table = append(table, row)
+	}
+	// a column that holds an "e" field needs a type with an empty encoding; values in such a column
+	// are therefore text-like: keep 2-cell values out of it (text values may be a single byte)
+	for j := 0; j < ncols; j++ {
+		hasE := false
+		for _, rv := range table {
+			if run.S(run.AsM(rv.([]any)[j]), "c") == "e" {
+				hasE = true
+			}
+		}
+		if hasE {
+			for _, rv := range table {
+				f := run.AsM(rv.([]any)[j])
+				if run.S(f, "c") == "v" && run.I(f, "n") == 2 {
+					f["n"] = 1
+					cells--
+				}
+			}
+		}
+	}
+	trailer := g.chance(0.7)
+	if trailer {
+		cells += 2
+	}
+	corrupt := M{"kind": "none"}
+	switch g.rng.Intn(6) {
+	case 0:
+		if nrows > 0 {
+			to := []int{ncols + 1, ncols - 1, 0, -1, ncols + 2, 65534}[g.rng.Intn(6)]
+			if to != ncols && to >= -1 {
+				corrupt = M{"kind": "cnt", "row": 1 + g.rng.Intn(nrows), "to": to}
+			}
+		}
+	case 1:
+		if cells > 0 {
+			corrupt = M{"kind": "trunc", "at": g.rng.Intn(cells), "mid": g.chance(0.5)}
+		}
+	}
+	bytecuts := []any{}
+	switch g.rng.Intn(4) {
+	case 0: // one byte per chunk
+		for i := 1; i < 4000; i++ {
+			bytecuts = append(bytecuts, i)
+		}
+	case 1:
+		for i := 0; i < g.rng.Intn(6); i++ {
+			bytecuts = append(bytecuts, 1+g.rng.Intn(200))
+		}
+	}
+	return M{"table": table, "hdr": hdr, "trailer": trailer, "corrupt": corrupt, "cuts": []any{}, "bytecuts": bytecuts,
+		"ncols": ncols, "emptychunks": g.chance(0.2)}
 }
